@@ -293,7 +293,7 @@ def run(shard, tier, seed):
 
     @hypothesis.seed(env.subseed(seed, ID, shard["i"]))
     @settings(max_examples=n, deadline=None, database=None, suppress_health_check=list(hypothesis.HealthCheck), phases=[hypothesis.Phase.generate])
-    @given(st.randoms(use_true_random=False), st.sampled_from(chainexec.CFGS), st.integers(6, 13 if tier == "quick" else 22))
+    @given(st.randoms(use_true_random=True), st.sampled_from(chainexec.CFGS), st.integers(6, 13 if tier == "quick" else 22))
     def prop(rnd, cfg, nb):
         case = gen(rnd, cfg, nb)
         try:
